@@ -50,6 +50,8 @@ package state
 // the channel is closed only after a successful initiation once the state
 // reports that it can transition
 //@ ghost chan:onDone elem != nil
+// sent_recvChan counts the sends on the machines' receive buffer (engine-maintained)
+//@ ghost sent_recvChan int
 //@ func asyncStateTransition
 //@   property C15
 //@   opt noframe 1
@@ -70,6 +72,10 @@ package state
 //@   ensures [ends-in-the-final-state-or-with-an-error] err == nil ==> result0 != nil && result0 == ghost.lastNextRecv && ghost.lastNextResult == nil
 //@   ensures [error-yields-no-state] err != nil ==> result0 == nil
 //@   loop 1 invariant currentState != nil && (ghost.nextCalls > old(ghost.nextCalls) ==> ghost.lastNextResult == currentState)
+//@   lit 1
+//@     opt noframe 1
+//@     modifies ghost.sent_recvChan
+//@     ensures [every-message-handed-to-the-handler-is-queued-for-the-machine] ghost.sent_recvChan == old(ghost.sent_recvChan) + 1
 
 // ---------------------------------------------------------------------------
 // C14: the block-synchronized machine. delayOf / activeOf are the state's own
@@ -116,3 +122,7 @@ package state
 //@   ensures [finishes-at-start-plus-the-total-duration-of-the-states-entered] err == nil ==> result1 == startBlockHeight + (ghost.sumDur - old(ghost.sumDur)) && result0 != nil && result0 == ghost.syncNextRecv && ghost.syncNextResult == nil
 //@   ensures [error-yields-no-state] err != nil ==> result0 == nil && result1 == 0
 //@   loop 1 invariant currentState != nil && blockWaiter != nil && @isWaiter(blockWaiter) && @waiterHeight(blockWaiter) == startBlockHeight + (ghost.sumDur - old(ghost.sumDur)) && ghost.sumDur >= old(ghost.sumDur)
+//@   lit 1
+//@     opt noframe 1
+//@     modifies ghost.sent_recvChan
+//@     ensures [every-message-handed-to-the-handler-is-queued-for-the-machine] ghost.sent_recvChan == old(ghost.sent_recvChan) + 1
